@@ -212,7 +212,9 @@ def run_case(case):
 def sig_export_scope_assertion(case, failure):
     """KF-C15-3: the exporter's scope/symbol-table alignment asserts; only when some formula has a conditional
     expression with a nested scope in its condition (the lambda) and in a branch"""
-    if failure["oracle"] != "export-failed" or "AssertionError" not in failure["detail"]:
+    asserts = failure["oracle"] == "export-failed" and "AssertionError" in failure["detail"]
+    misbinds = failure["oracle"] == "export-value" and "'NameError'" in failure["detail"]
+    if not (asserts or misbinds):
         return False
 
     def nested(e):
